@@ -179,6 +179,7 @@ static void run_C02(const Args &a, long cs) {
 	if (!s.extents.empty()) count("tables-with-custom-extents");
 	int nd = s.ndim(); int npts = a.tier == "thorough" ? 200 : 80;
 	if (s.block() > 1000) npts /= 4;
+	if (highorder) npts = a.tier == "thorough" ? 40 : 30; // (the long-double reference recursion costs 2^order per basis value)
 	count("tables"); count(strict ? "tables-strict-knots" : "tables-repeated-allowed"); count("ndim:" + std::to_string(nd));
 	bool has0 = false; for (unsigned o : s.order) { count("order:" + std::to_string(o)); if (o == 0) has0 = true; }
 	if (has0) count("tables-with-order0-axis");
